@@ -10,7 +10,7 @@ NOT_DECIDED_CUBIC_INVERSE = ("cubic_spline(inverse=True): the trigonometric thre
 def Ks(tier, fam):
     if tier == "quick":
         return (1, 2, 3)
-    return (1, 2, 3, 4, 5, 8) if fam in ("rq", "linear") else (1, 2, 3, 4, 5)
+    return (1, 2, 3, 4, 5, 8) if fam in ("rq", "linear", "quadratic") else (1, 2, 3, 4, 5)
 
 
 def spline_harnesses(props, tier, wrappers=True, directions=(False, True)):
